@@ -22,6 +22,19 @@ package snapshot
 //@ loop 1 invariant[seen-are-listed] forall name string :: has(seen, name) ==> exists j int :: 0 <= j && j < scanPos(s) && scanFile(lineAt(r, j)) == name
 //@ loop 2 invariant[visited-were-seen] forall name string :: range2_visited[name] ==> has(seen, name)
 
+// a member name is hashed into ONE digest object: asking for the hash of a name that is already registered returns
+// the registered object (a repeated archive member continues the digest it started, it does not restart it)
+//@ func hashList.Add
+//@ props C20
+//@ results h
+//@ requires hl != nil && hl.hashes != nil
+//@ requires[digests-allocated] forall k string :: has(hl.hashes, k) ==> allocated(hl.hashes[k])
+//@ ensures[registered] has(hl.hashes, file) && hl.hashes[file] == h && allocated(h)
+//@ ensures[existing-kept] old(has(hl.hashes, file)) ==> h == old(hl.hashes[file]) && hashedLen(h) == old(hashedLen(hl.hashes[file]))
+//@ ensures[new-starts-empty] !old(has(hl.hashes, file)) ==> fresh(h) && hashedLen(h) == 0
+//@ ensures[nothing-written-to-existing-sinks] forall w any :: !fresh(w) ==> hashedLen(w) == old(hashedLen(w)) && forall j int :: hashedKept(w, j)
+//@ ensures[others-kept] forall k string :: k != file ==> (has(hl.hashes, k) <==> old(has(hl.hashes, k))) && hl.hashes[k] == old(hl.hashes[k])
+
 // Z2 (control part): an archive is accepted only if it holds nothing but the three expected members and the
 // checksum list verified; any tar error other than the regular end rejects it.
 //@ func read
@@ -31,6 +44,11 @@ package snapshot
 //@ ensures[only-expected-members] err == nil ==> forall j int :: 0 <= j && j < tarCount(in) ==> tarName(in, j) == "meta.json" || tarName(in, j) == "state.bin" || tarName(in, j) == "SHA256SUMS"
 //@ ensures[checksums-verified] err == nil ==> called("DecodeAndVerify") && lastErr("DecodeAndVerify") == nil
 //@ ensures[does-not-restore] called("raftRestore") <==> old(called("raftRestore"))
+//@ ensures[extracted-state-is-exactly-what-was-hashed] err == nil ==> has(hl.hashes, "state.bin") && hashedLen(snap) - old(hashedLen(snap)) == hashedLen(hl.hashes["state.bin"]) && forall j int :: 0 <= j && j < hashedLen(hl.hashes["state.bin"]) ==> hashedSame(hl.hashes["state.bin"], j, snap, old(hashedLen(snap)) + j)
+//@ loop 1 invariant[hashes-registered] has(hl.hashes, "state.bin") && has(hl.hashes, "meta.json") && snapHash == hl.hashes["state.bin"] && metaHash == hl.hashes["meta.json"]
+//@ loop 1 invariant[two-digests] hl.hashes["state.bin"] != hl.hashes["meta.json"]
+//@ loop 1 invariant[state-bytes-count] hashedLen(snap) - old(hashedLen(snap)) == hashedLen(hl.hashes["state.bin"]) && 0 <= hashedLen(hl.hashes["state.bin"])
+//@ loop 1 invariant[state-bytes-so-far-hashed] forall j int :: 0 <= j && j < hashedLen(hl.hashes["state.bin"]) ==> hashedSame(hl.hashes["state.bin"], j, snap, old(hashedLen(snap)) + j)
 //@ loop 1 invariant[walk] tarSrc(archive) == any(in) && 0 <= tarPos(archive) && tarPos(archive) <= tarCount(in)
 //@ loop 1 invariant[members-so-far-expected] forall j int :: 0 <= j && j < tarPos(archive) ==> tarName(in, j) == "meta.json" || tarName(in, j) == "state.bin" || tarName(in, j) == "SHA256SUMS"
 //@ loop 1 invariant[does-not-restore] called("raftRestore") <==> old(called("raftRestore"))
